@@ -8,7 +8,7 @@
     Hand-modelled: the block loop around the kernel (Model/C16_File.v), histories of operations (Model/C16_MaskAlg.v). *)
 From Coq Require Import ZArith QArith Qabs List Bool.
 Require Import SPP.Base.Rt SPP.Gen.Kernels SPP.Gen.C16Rfi SPP.Model.Bits SPP.Model.C16_Vec SPP.Model.C16_File
-               SPP.Model.C16_MaskAlg SPP.Proofs.C16_kernel SPP.Proofs.C16_maskalg.
+               SPP.Model.C16_MaskAlg SPP.Proofs.C16_kernel SPP.Proofs.C16_maskalg SPP.Proofs.C16_histx SPP.Proofs.C16_scalefree.
 Import ListNotations.
 Open Scope Z_scope.
 
@@ -105,6 +105,48 @@ Theorem C16_nonpositive_threshold_rejected_iqrm : forall zi n a thr radius ratio
 Proof. exact iqrm_rejects. Qed.
 Print Assumptions C16_nonpositive_threshold_rejected_iqrm.
 
+(** * 3b. The executable estimators (Model/C16_MaskAlg.v, hand models of stats.estimate_zscore with the exact zero tests
+       [is_zero] / [zero_scale]) are scale-free: for k > 0 the z-score of element c of k*a is that of a, as rationals.
+       Hypothesis, per element: the zero-scale guard does not fire for that element's scale (scale > 2^-126 * largest deviation),
+       or the element sits on the location.  [ka k a] is [fun i => k * a i]; [dm_scale] / [iqr_scale] are the scales before the
+       guard, [ex_maxdev] the largest deviation, [ex_loc] the median.  Nothing is assumed of n or of a. *)
+Theorem C16_doublemad_scale_free : forall k, (0 < k)%Q -> forall n a c,
+  zero_scale (dm_scale n a c) (ex_maxdev n a) = false \/ (a c == ex_loc n a)%Q ->
+  (zscore_doublemad_exec n (ka k a) c == zscore_doublemad_exec n a c)%Q.
+Proof. exact doublemad_scale_free. Qed.
+Print Assumptions C16_doublemad_scale_free.
+
+Theorem C16_iqr_scale_free : forall k, (0 < k)%Q -> forall n a c,
+  zero_scale (iqr_scale n a) (ex_maxdev n a) = false \/ (a c == ex_loc n a)%Q ->
+  (zscore_iqr_exec n (ka k a) c == zscore_iqr_exec n a c)%Q.
+Proof. exact iqr_scale_free. Qed.
+Print Assumptions C16_iqr_scale_free.
+
+Theorem C16_mad_flag_scale_free : forall k n a thr c, (0 < k)%Q ->
+  zero_scale (dm_scale n a c) (ex_maxdev n a) = false \/ (a c == ex_loc n a)%Q ->
+  mad_flag (zscore_doublemad_exec n) thr (ka k a) c = mad_flag (zscore_doublemad_exec n) thr a c.
+Proof. exact mad_flag_scale_free. Qed.
+Print Assumptions C16_mad_flag_scale_free.
+
+(** the side condition is needed for the IQR estimator: with a zero inter-quartile range (here [0;2;0;0;0]) the raw deviation
+    is scored; in units twice as small element 1 is flagged at threshold 3, in the original unit it is not *)
+Theorem C16_iqr_zero_scale_unit_dependent_refuted :
+  exists (k : Q) (n : Z) (a : qvec) (c : Z), (0 < k)%Q /\ 0 <= c < n /\
+    zero_scale (iqr_scale n a) (ex_maxdev n a) = true /\ ~ (a c == ex_loc n a)%Q /\
+    ~ (zscore_iqr_exec n (ka k a) c == zscore_iqr_exec n a c)%Q /\
+    beyond 3 (zscore_iqr_exec n (ka k a) c) = true /\ beyond 3 (zscore_iqr_exec n a c) = false.
+Proof. exact iqr_zero_scale_unit_dependent_refuted. Qed.
+Print Assumptions C16_iqr_zero_scale_unit_dependent_refuted.
+
+(** the hypothesis is satisfiable for every element of an ordinary vector (both estimators), and of a half-flat one (zero
+    one-sided MAD, mean-absolute-deviation fallback) for the double MAD *)
+Example C16_scale_free_hypothesis_satisfiable :
+  forallb (fun c => negb (zero_scale (dm_scale 6 (qof [1#1; 2#1; 3#1; 4#1; 5#1; 20#1]) c) (ex_maxdev 6 (qof [1#1; 2#1; 3#1; 4#1; 5#1; 20#1])))) (zrange 6) = true /\
+  zero_scale (iqr_scale 6 (qof [1#1; 2#1; 3#1; 4#1; 5#1; 20#1])) (ex_maxdev 6 (qof [1#1; 2#1; 3#1; 4#1; 5#1; 20#1])) = false /\
+  forallb (fun c => negb (zero_scale (dm_scale 7 (qof [5#1; 5#1; 5#1; 5#1; 4#1; 3#1; 9#1]) c) (ex_maxdev 7 (qof [5#1; 5#1; 5#1; 5#1; 4#1; 3#1; 9#1])))) (zrange 7) = true /\
+  blist 6 (mad_flag (zscore_doublemad_exec 6) 3 (ka (1 # 1073741824) (qof [1#1; 2#1; 3#1; 4#1; 5#1; 20#1]))) = [false; false; false; false; false; true].
+Proof. vm_compute. repeat split; reflexivity. Qed.
+
 (** * 4. Applying further masks only ever adds channels (every history of public operations) *)
 Theorem C16_mask_monotone : forall dmm iqm nchans freqs var skew kurt thr l s c,
   chan_mask s c = true -> chan_mask (run_ops dmm iqm nchans freqs var skew kurt thr s l) c = true.
@@ -125,6 +167,112 @@ Theorem C16_union_repeated_refuted :
     chan_mask s c = true /\ user_mask s c || stats_mask s c || custom_mask s c = false.
 Proof. exact union_repeated_refuted. Qed.
 Print Assumptions C16_union_repeated_refuted.
+
+(** * 4b. Extended histories: the threshold attribute assigned between operations ([XThr]), range end points that may be
+       infinite ([xq]), any starting mask (e.g. one loaded from a file with channels preset).  [apply_mask_x] is regenerated from
+       the same statements of RFIMask.apply_mask as [apply_mask]; the history type [opx] / [run_opsx] is Model/C16_MaskAlg.v *)
+Theorem C16_user_mask_x : forall n freqs s fm,
+  (forall c, user_mask (apply_mask_x n freqs s fm) c = in_ranges_x (freqs c) fm) /\
+  (forall c, chan_mask (apply_mask_x n freqs s fm) c = chan_mask s c || in_ranges_x (freqs c) fm) /\
+  stats_mask (apply_mask_x n freqs s fm) = stats_mask s /\
+  custom_mask (apply_mask_x n freqs s fm) = custom_mask s.
+Proof. exact apply_mask_x_spec. Qed.
+Print Assumptions C16_user_mask_x.
+
+Theorem C16_user_mask_x_closed_range : forall f fm,
+  in_ranges_x f fm = true <-> exists lo hi, In (lo, hi) fm /\ xq_le lo (XFin f) /\ xq_le (XFin f) hi.
+Proof. exact in_ranges_x_closed. Qed.
+Print Assumptions C16_user_mask_x_closed_range.
+
+(** with finite end points it is the operation of section 2 *)
+Theorem C16_user_mask_x_finite : forall n freqs s fm c,
+  chan_mask (apply_mask_x n freqs s (map xfin fm)) c = chan_mask (apply_mask n freqs s fm) c /\
+  user_mask (apply_mask_x n freqs s (map xfin fm)) c = user_mask (apply_mask n freqs s fm) c /\
+  stats_mask (apply_mask_x n freqs s (map xfin fm)) = stats_mask (apply_mask n freqs s fm) /\
+  custom_mask (apply_mask_x n freqs s (map xfin fm)) = custom_mask (apply_mask n freqs s fm).
+Proof. exact apply_mask_x_fin. Qed.
+Print Assumptions C16_user_mask_x_finite.
+
+(** every extended history, from every starting state, only adds channels *)
+Theorem C16_history_monotone : forall dmm iqm nchans freqs var skew kurt l h c,
+  chan_mask (h_mask h) c = true -> chan_mask (h_mask (run_opsx dmm iqm nchans freqs var skew kurt h l)) c = true.
+Proof. exact run_opsx_mono. Qed.
+Print Assumptions C16_history_monotone.
+
+(** and keeps the three component masks inside chan_mask if the starting mask does (a fresh one, or one with extra channels preset) *)
+Theorem C16_history_covers : forall dmm iqm nchans freqs var skew kurt l h,
+  covers (h_mask h) -> covers (h_mask (run_opsx dmm iqm nchans freqs var skew kurt h l)).
+Proof. exact run_opsx_covers. Qed.
+Print Assumptions C16_history_covers.
+
+(** the histories of section 4 are the extended histories without [XThr] and with finite end points *)
+Theorem C16_history_extends : forall dmm iqm nchans freqs var skew kurt thr s o c,
+  let a := h_mask (run_opx dmm iqm nchans freqs var skew kurt (HState s thr) (opx_of o)) in
+  let b := run_op dmm iqm nchans freqs var skew kurt thr s o in
+  h_thr (run_opx dmm iqm nchans freqs var skew kurt (HState s thr) (opx_of o)) = thr /\
+  chan_mask a c = chan_mask b c /\ user_mask a c = user_mask b c /\ stats_mask a = stats_mask b /\ custom_mask a = custom_mask b.
+Proof. exact run_opx_of_op. Qed.
+Print Assumptions C16_history_extends.
+
+(** * 4c. apply_method after any history uses the threshold the object holds NOW *)
+Theorem C16_history_threshold : forall dmm iqm nchans freqs var skew kurt l h,
+  h_thr (run_opsx dmm iqm nchans freqs var skew kurt h l) = current_thr (h_thr h) l.
+Proof. exact run_opsx_thr. Qed.
+Print Assumptions C16_history_threshold.
+
+Theorem C16_stats_mask_current_threshold : forall dmm iqm nchans freqs var skew kurt h l m,
+  let h1 := run_opsx dmm iqm nchans freqs var skew kurt h l in
+  let t := current_thr (h_thr h) l in
+  match apply_method dmm iqm var skew kurt t (h_mask h1) m with
+  | Some s' =>
+      run_opx dmm iqm nchans freqs var skew kurt h1 (XMethod m) = HState s' t /\
+      exists fn mv ms mk, (m = M_mad /\ fn = dmm \/ m = M_iqrm /\ fn = iqm) /\
+        fn var t = Some mv /\ fn skew t = Some ms /\ fn kurt t = Some mk /\
+        (forall c, stats_mask s' c = mv c || ms c || mk c) /\
+        (forall c, chan_mask s' c = chan_mask (h_mask h1) c || stats_mask s' c) /\
+        user_mask s' = user_mask (h_mask h1) /\ custom_mask s' = custom_mask (h_mask h1)
+  | None => run_opx dmm iqm nchans freqs var skew kurt h1 (XMethod m) = h1
+  end.
+Proof. exact method_after_history. Qed.
+Print Assumptions C16_stats_mask_current_threshold.
+
+(** with the generated double MAD rule: |z| > (current threshold) on variance, skewness or kurtosis *)
+Theorem C16_stats_mask_current_threshold_mad : forall zs iqm nchans freqs var skew kurt h l,
+  let dmm := mad_fn zs in
+  let h1 := run_opsx dmm iqm nchans freqs var skew kurt h l in
+  let t := current_thr (h_thr h) l in
+  (0 < t)%Q ->
+  exists s', run_opx dmm iqm nchans freqs var skew kurt h1 (XMethod M_mad) = HState s' t /\
+    forall c, stats_mask s' c = mad_flag zs t var c || mad_flag zs t skew c || mad_flag zs t kurt c.
+Proof. exact mad_after_history. Qed.
+Print Assumptions C16_stats_mask_current_threshold_mad.
+
+(** non-vacuity: a history that starts with channel 1 preset, applies "mad" at threshold 1000 (nothing), assigns 3 and applies it
+    again (channel 4), masks the half line (-inf, 2] (channels 6, 7), applies the integer-valued custom function 6 (1, 5),
+    assigns 1000 and applies "iqrm" (statistics mask empty again, chan_mask keeps everything).  Rows: chan_mask, stats_mask
+    after every operation, then user_mask and custom_mask *)
+Example C16_history_example :
+  run_opsx_exec 8 [8#1; 7#1; 6#1; 5#1; 4#1; 3#1; 2#1; 1#1] [1#1; 2#1; 1#1; 3#1; 100#1; 2#1; 1#1; 2#1]
+    [0#1; 0#1; 0#1; 0#1; 0#1; 0#1; 0#1; 0#1] [0#1; 0#1; 0#1; 0#1; 0#1; 0#1; 0#1; 0#1] 1000
+    [false; true; false; false; false; false; false; false]
+    [CXMethod M_mad; CXThr 3; CXMethod M_mad; CXMask [(XNegInf, XFin (2#1))]; CXFuncn 6; CXThr 1000; CXMethod M_iqrm] =
+  [[false; true; false; false; false; false; false; false]; [false; false; false; false; false; false; false; false];
+   [false; true; false; false; false; false; false; false]; [false; false; false; false; false; false; false; false];
+   [false; true; false; false; true; false; false; false];  [false; false; false; false; true; false; false; false];
+   [false; true; false; false; true; false; true; true];    [false; false; false; false; true; false; false; false];
+   [false; true; false; false; true; true; true; true];     [false; false; false; false; true; false; false; false];
+   [false; true; false; false; true; true; true; true];     [false; false; false; false; true; false; false; false];
+   [false; true; false; false; true; true; true; true];     [false; false; false; false; false; false; false; false];
+   [false; false; false; false; false; false; true; true];  [false; true; false; false; false; true; false; false]].
+Proof. vm_compute. reflexivity. Qed.
+
+(** half lines are closed at their finite end and contain everything on the infinite side; an inverted pair is empty *)
+Example C16_half_line_example :
+  in_ranges_x (2#1) [(XNegInf, XFin (2#1))] = true /\ in_ranges_x (-1000000#1) [(XNegInf, XFin (2#1))] = true /\
+  in_ranges_x (5#2) [(XNegInf, XFin (2#1))] = false /\ in_ranges_x (7#1) [(XFin (7#1), XPosInf)] = true /\
+  in_ranges_x (7#1) [(XNegInf, XPosInf)] = true /\ in_ranges_x (7#1) [(XPosInf, XNegInf)] = false /\
+  current_thr 3 [XMethod M_mad; XThr 5; XMask []; XThr (1#2); XFuncn (fun m => m)] = (1#2)%Q.
+Proof. vm_compute. repeat split; reflexivity. Qed.
 
 (** * 5. The kernel: masked channels get the mask value at every sample, everything else is untouched *)
 Theorem C16_kernel_spec : forall array mask mv nchans nsamps, 0 <= nchans -> 0 <= nsamps ->
